@@ -65,6 +65,11 @@ func Verify(root *etree.Element, sigpath string, extraCerts []*x509.Certificate)
 		return nil, errors.New("xmldsig: multiple signatures found")
 	}
 	sigEl := sigs[0]
+	// the fields below are read from every SignedInfo and SignatureValue child,
+	// while the signature covers only the first SignedInfo: there must be one of each
+	if len(sigEl.SelectElements("SignedInfo")) != 1 || len(sigEl.SelectElements("SignatureValue")) != 1 {
+		return nil, errors.New("xmldsig: invalid signature")
+	}
 	// parse signature tree
 	sigbytes, err := SerializeCanonical(sigEl)
 	if err != nil {
